@@ -43,6 +43,16 @@ pub fn check(t: &Trace<'_>, out: &mut CaseOut) -> bool {
                 return Some("disconnect-called-refused-although-it-fits".into());
             }
         }
+        // the transport answered a call of this operation with an error: however the operation
+        // words its result, it has reported a transport failure
+        if op.live_before && !matches!(op.outcome, Outcome::Cancelled | Outcome::Watchdog | Outcome::Ok(_)) && latches(op).is_none() {
+            if let Some(k) = t.w.events[op.ev_call..op.ev_ret.max(op.ev_call)].iter().find_map(|e| match e {
+                Ev::Io { ans: IoAns::Err(k), conn, .. } if Some(*conn) == op.conn => Some(*k),
+                _ => None,
+            }) {
+                return Some(format!("transport-{:?}-reported-as-{:?}", k, op.outcome).replace(' ', ""));
+            }
+        }
         latches(op)
     };
     for ci in t.conns.iter().filter(|c| c.established) {
